@@ -1363,7 +1363,10 @@ Inductive op :=
 | OReady | OAdvance (rd : ready) | OAdvanceAppend (rd : ready) | OAdvanceAppendAsync (rd : ready)
 | OOnPersistReady (number : N) | OAdvanceApply | OAdvanceApplyTo (a : N)
 | OReportUnreachable (id : N) | OReportSnapshot (id : N) (failure : bool)
-| ORequestSnapshot | OTransferLeader (id : N) | OReadIndex (ctx : list N).
+| ORequestSnapshot | OTransferLeader (id : N) | OReadIndex (ctx : list N)
+(* not a library call: the application writes its Storage (append / apply_snapshot /
+   compact), which the library only reads; the model keeps the store inside raft_log *)
+| OSetStore (m : MemStorage.mem).
 
 Definition out := (option N * list entry)%type.
 Definition no_out : out := (None, []).
@@ -1398,6 +1401,8 @@ Definition exec (n : rawnode) (o : op) : Res (rawnode * out) :=
   | ORequestSnapshot => quiet (rn_request_snapshot n)
   | OTransferLeader id => quiet1 (rn_transfer_leader n id)
   | OReadIndex c => quiet1 (rn_read_index n c)
+  | OSetStore m =>
+      Ok (n <| rn_raft := (rn_raft n) <| r_log := set_store (r_log (rn_raft n)) m |> |>, no_out)
   end.
 
 (* calls that hand nothing out leave commit_since_index alone *)
@@ -1426,7 +1431,8 @@ Lemma quiet_ops_csi n o n' ot :
   exec n o = Ok (n', ot) ->
   ot = no_out /\ rn_commit_since_index n' = rn_commit_since_index n.
 Proof.
-  intros Ho H. destruct o; try contradiction; cbn [exec] in H; unfold quiet, quiet1 in H;
+  intros Ho H. destruct o; try contradiction; cbn [exec] in H;
+    try (inversion H; subst; split; reflexivity); unfold quiet, quiet1 in H;
     inv_bind H; inversion H; subst; clear H; (split; [reflexivity|]).
   - unfold rn_step in Hx. destruct (is_local_msg (m_type m)); [inversion Hx; reflexivity|].
     match type of Hx with (if ?c then _ else _) = _ => destruct c end;
@@ -1715,3 +1721,64 @@ Proof.
   - apply R3'. symmetry. exact A3.
   - apply R4'. symmetry. exact A4.
 Qed.
+
+(* ------------------------------------------------------------------ *)
+(* Sample states (for the non-vacuity Examples of Props/C07.v): a single-voter
+   node built by RawNode::new, campaigning, its first Ready, the application
+   persisting the Ready's entries, advance_append. *)
+Module Samples.
+  Definition cfg : config :=
+    mkCfg 1 10 1 0 1000 8 false false 0 0 0 false false 0%Z u64_max u64_max 0 false.
+
+  Definition store0 : MemStorage.mem :=
+    match MemStorage.new_with_conf_state (cs_from [1] []) with
+    | Ok m => m | Panic _ => MemStorage.new end.
+
+  Ltac from_ok t := let x := eval vm_compute in t in match x with Ok ?n => exact n end.
+
+  Definition node0 : rawnode.
+  Proof.
+    let x := eval vm_compute in (rn_new cfg store0 None [15; 15; 15; 15]) in
+    match x with Ok (inr ?n) => exact n end.
+  Defined.
+
+  (* leader of term 1 with the unstable empty entry (1, 1) *)
+  Definition node1 : rawnode. Proof. from_ok (x <- rn_campaign node0 ;; Ok (fst x)). Defined.
+
+  Definition ready1 : rawnode * ready. Proof. from_ok (rn_ready node1). Defined.
+
+  (* the application appends the Ready's entries to its Storage *)
+  Definition store1 : MemStorage.mem.
+  Proof. from_ok (MemStorage.append store0 (rd_entries (snd ready1))). Defined.
+
+  Definition node2 : rawnode.
+  Proof. from_ok (x <- exec (fst ready1) (OSetStore store1) ;; Ok (fst x)). Defined.
+
+  (* the state in which advance_append cuts its batch *)
+  Definition node2_mid : rawnode.
+  Proof.
+    from_ok (n1 <- commit_ready node2 (snd ready1) ;; rn_on_persist_ready n1 (rn_max_number n1)).
+  Defined.
+
+  Definition adv : rawnode * light_ready.
+  Proof. from_ok (rn_advance_append node2 (snd ready1)). Defined.
+
+  Definition node3 : rawnode := fst adv.
+
+  Definition e1 : entry := mkEntry 0 1 1 [] [].
+
+  (* a follower with a pending snapshot at index 5 *)
+  Definition node_snap : rawnode.
+  Proof.
+    from_ok (l <- log_restore (r_log (rn_raft node0)) (mkSnap 5 1 (cs_from [1] [])) ;;
+             Ok (node0 <| rn_raft := (rn_raft node0) <| r_log := l |> |>)).
+  Defined.
+
+  (* apply-before-persist with the largest limit (finding F8) and one proposal *)
+  Definition node_max : rawnode.
+  Proof.
+    from_ok (x <- rn_propose (node1 <| rn_raft := set_max_apply_unpersisted_log_limit
+                                                    (rn_raft node1) u64_max |>) [] [7] ;;
+             Ok (fst x)).
+  Defined.
+End Samples.
